@@ -3,7 +3,7 @@ CONSTANTS
   Clients = {1, 2}
   Start = 16777214
   MaxChanges = 4
-  ResourceWideDirty = FALSE
-INVARIANTS Monotone MonotoneStrict StrictAfterChange OneEntry DirtyRegistered
+  ResourceWideDirty = TRUE
+INVARIANTS MonotoneStrict
 CONSTRAINT Bound
 CHECK_DEADLOCK FALSE
